@@ -1087,23 +1087,29 @@ Proof.
   cbn [init_data d_mtime]. cbn. unfold do_sync_serve. cbn. reflexivity.
 Qed.
 
-(* what still fails in per-mutation sync: RemoteHello re-memorises
-   lastPushData but keeps the tracer's dataQueue; after a reconnect the next
-   chain starts below lastPushData, wraps, and is accepted *)
-Theorem hello_keeps_queue_refuted_lemma :
-  exists (p : pcfg) (s0 a b c : snap),
-    p_mut p = true /\ shallow (p_codec p) = false /\
-    cfg_wf (p_codec p) (length (s_time s0)) = true /\
-    chain_in_range s0 [a; b; c] = true /\ s_m s0 = 0 /\
-    let st := exec p (init p s0) [Src a; Src b; Hello; Src c; Push; Settle] in
-    quiescent st = true /\ st_err st = false /\ st_rejpush st = false /\
-    activity_ok (p_codec p) (s_time c) (cl_t (st_cl st)) = true /\
-    ticks_ok (p_codec p) (s_time c) (cl_t (st_cl st)) = false /\
-    cl_t (st_cl st) = [1; 1 + 4294967296; 1; 0] /\ cl_q (st_cl st) = 4 + 65536.
+(* aabeecb: a (re-)Hello starts the session from the handshake clock: the
+   tracer's dataQueue is empty, lastPushData and the mirror are the source now *)
+Theorem hello_restarts_lemma : forall p s,
+  st_err s = false -> cl_stuck (st_cl s) = false ->
+  let s' := step p s Hello in
+  let x := st_cur s in
+  sv_queue (st_sv s') = [] /\
+  client_view s' = (mirror (p_codec p) x, s_q x, if p_hello_m p then s_m x else 0) /\
+  d_mtime (sv_last (st_sv s')) = Some (mirror (p_codec p) x) /\
+  d_q (sv_last (st_sv s')) = s_q x /\ d_m (sv_last (st_sv s')) = s_m x /\
+  st_wire s' = [] /\ st_pend s' = None /\ cl_need (st_cl s') = false /\ st_err s' = false.
 Proof.
-  exists mutp, r1_s0, r3_a, r3_b, r5_c.
-  repeat split; vm_compute; reflexivity.
+  intros p s He Hs. unfold step. rewrite He. unfold do_hello. rewrite Hs.
+  unfold client_view. cbn. rewrite He. repeat split; reflexivity.
 Qed.
+
+(* per-mutation sync after a reconnect, on the former witness of
+   hello_keeps_queue_refuted: exact ticks *)
+Lemma mutations_reconnect_example :
+  let st := exec mutp (init mutp r1_s0) [Src r3_a; Src r3_b; Hello; Src r5_c; Push; Settle] in
+  client_view st = (mirror all4 r5_c, s_q r5_c, s_m r5_c) /\ st_rejpush st = false /\
+  quiescent st = true /\ st_err st = false.
+Proof. vm_compute. repeat split; reflexivity. Qed.
 
 (* shallow clocks, after a Sync(): RemoteSync did not update lastPushData, the
    reply of the next (no-op) mutation is computed against the older belief;
